@@ -2,6 +2,9 @@
 pub mod nesting;
 pub mod flow_frag;
 pub mod doc_types;
+pub mod fmt_config;
+pub mod fmt_input;
+pub mod fmt_prog;
 pub mod soup;
 pub mod util;
 pub mod paths;
